@@ -4,7 +4,7 @@
    Spec/RFC4271FSM.v ([spec_step]: RFC 4271 state diagram + the three coupling requirements). *)
 From Coq Require Import List NArith Bool.
 Import ListNotations.
-From BioVerif Require Import Model.FSM Spec.RFC4271FSM Proofs.FSMProofs.
+From BioVerif Require Import Model.FSM Spec.RFC4271FSM Proofs.FSMProofs Proofs.FSMSysProofs.
 Local Open Scope N_scope.
 
 (* For every configuration and EVERY finite sequence of administrative events, connection events,
@@ -42,6 +42,17 @@ Theorem C23_no_crash : forall (c : cfg) (es : list ev) (e : ev),
 Proof. exact no_crash. Qed.
 Print Assumptions C23_no_crash.
 
+(* "Attached" is about what the Loc-RIB holds, whatever import policy was in force when the session came
+   up: replacing the import policy of an attached session (bgpServer.ReplaceImportFilterChain) makes the
+   Loc-RIB hold exactly what the new policy makes of the eligible paths of its Adj-RIB-In. *)
+Theorem C23_policy_replacement_reattaches : forall (y : sys) (i : nat) (c : cfg) (s : sess) (p : import_policy),
+  nth_sess (y_sess y) i = Some (c, s) -> s_st s <> Ceased -> s_att s = true -> c_v4 c = true ->
+  FSMSysProofs.rib_of (fst (sys_step y i (EReplaceImport p))) (N.of_nat i) =
+  flat_map (fun rid => if is_hidden (y_hidden y) (N.of_nat i) rid then [] else imported p (N.of_nat i) rid)
+           (FSMSysProofs.adjin_of y (N.of_nat i)).
+Proof. exact FSMSysProofs.replacement_reattaches. Qed.
+Print Assumptions C23_policy_replacement_reattaches.
+
 (* Non-vacuity: an eBGP session that is established, receives an UPDATE and then a message with a
    damaged marker: it is Established and attached before, Idle, detached and closed afterwards,
    having sent NOTIFICATION 1/1. *)
@@ -60,9 +71,7 @@ Example C23_example_established :
 Proof. repeat split; reflexivity. Qed.
 
 Example C23_example_decode_error :
-  step ex_cfg (final ex_cfg ex_up) (EMsg (MHeader false 19 4 0)) =
-  (fst (step ex_cfg (final ex_cfg ex_up) (EMsg (MHeader false 19 4 0))),
-   [SentNotification 1 1; Uninit; Closed]) /\
+  snd (step ex_cfg (final ex_cfg ex_up) (EMsg (MHeader false 19 4 0))) = [SentNotification 1 1; Uninit; Closed] /\
   s_st (fst (step ex_cfg (final ex_cfg ex_up) (EMsg (MHeader false 19 4 0)))) = Idle /\
   s_att (fst (step ex_cfg (final ex_cfg ex_up) (EMsg (MHeader false 19 4 0)))) = false.
-Proof. repeat split; reflexivity. Qed.
+Proof. repeat split; vm_compute; reflexivity. Qed.
